@@ -538,9 +538,9 @@ def execute(ctx, case, extra_classes=()):
 def run(ctx):
     ctx.set_budget(60, 840)
     ctx.assume("'loops forever' = send() returns 0 for 120 consecutive iterations, the last 100 of them after every other task has finished or is parked for good (state frozen)")
-    ctx.explore(case_st, lambda c: execute(ctx, c), ctx.scale(2100, 24000))
-    ctx.explore(timed_case_st, lambda c: execute(ctx, c, ("timed-family",)), ctx.scale(600, 7000), seed_offset=3)
-    ctx.explore(flow_case_st, lambda c: execute(ctx, c, ("flow-family",)), ctx.scale(450, 6000), seed_offset=5)
+    ctx.explore(case_st, lambda c: execute(ctx, c), ctx.scale(2800, 26000))
+    ctx.explore(timed_case_st, lambda c: execute(ctx, c, ("timed-family",)), ctx.scale(700, 7000), seed_offset=3)
+    ctx.explore(flow_case_st, lambda c: execute(ctx, c, ("flow-family",)), ctx.scale(500, 6000), seed_offset=5)
 
 
 def replay(ctx, case):
